@@ -45,6 +45,39 @@ type caseC30 struct {
 	Content string `json:"content,omitempty"`
 	// Password is only set by the random variant; empty means "derive from the case"
 	Password string `json:"password,omitempty"`
+	// Fault: the backend answers the first call of this kind with a transient (not a
+	// "does not exist") error: "" | "stat-config" | "list-key" | "list-snapshot" | "stat-config-always"
+	Fault string `json:"fault,omitempty"`
+}
+
+// faultBackendC30 fails Stat(config) / List(key) / List(snapshot) with an error that is NOT a
+// not-exist error, once or always. Everything else goes to the mem backend.
+type faultBackendC30 struct {
+	backend.Backend
+	fault string
+	hits  int
+}
+
+var errFaultC30 = fmt.Errorf("injected: input/output error")
+
+func (b *faultBackendC30) Stat(ctx context.Context, h backend.Handle) (backend.FileInfo, error) {
+	if h.Type == backend.ConfigFile && strings.HasPrefix(b.fault, "stat-config") {
+		b.hits++
+		if b.hits == 1 || b.fault == "stat-config-always" {
+			return backend.FileInfo{}, errFaultC30
+		}
+	}
+	return b.Backend.Stat(ctx, h)
+}
+
+func (b *faultBackendC30) List(ctx context.Context, t backend.FileType, fn func(backend.FileInfo) error) error {
+	if (t == backend.KeyFile && b.fault == "list-key") || (t == backend.SnapshotFile && b.fault == "list-snapshot") {
+		b.hits++
+		if b.hits == 1 {
+			return errFaultC30
+		}
+	}
+	return b.Backend.List(ctx, t, fn)
 }
 
 func (c caseC30) String() string {
@@ -54,7 +87,11 @@ func (c caseC30) String() string {
 			present = append(present, n)
 		}
 	}
-	return fmt.Sprintf("pre-existing={%s}x%d(%s) version=%d polynomial=%s", strings.Join(present, ","), c.PerType, c.Content, c.Version, c.Pol)
+	f := ""
+	if c.Fault != "" {
+		f = " fault=" + c.Fault
+	}
+	return fmt.Sprintf("pre-existing={%s}x%d(%s) version=%d polynomial=%s%s", strings.Join(present, ","), c.PerType, c.Content, c.Version, c.Pol, f)
 }
 
 func dumpBackendC30(t testing.TB, be backend.Backend) map[string][]byte {
@@ -141,7 +178,11 @@ func runCaseC30(t testing.TB, st *verifkit.Stats, c caseC30, given chunker.Pol, 
 	}
 	before := dumpBackendC30(t, be)
 
-	repo, err := New(be, Options{})
+	var ibe backend.Backend = be
+	if c.Fault != "" {
+		ibe = &faultBackendC30{Backend: be, fault: c.Fault}
+	}
+	repo, err := New(ibe, Options{})
 	if err != nil {
 		t.Fatalf("harness: %v", err)
 	}
@@ -173,6 +214,14 @@ func runCaseC30(t testing.TB, st *verifkit.Stats, c caseC30, given chunker.Pol, 
 		}
 		if len(added) > 0 {
 			return fmt.Sprintf("Init refused (%v) but added %v", initErr, added)
+		}
+		return ""
+	}
+	if initErr != nil && c.Fault != "" {
+		// a failed existence check may (and does) make Init give up; then nothing may have been created
+		st.Class("outcome=gave-up-on-backend-error")
+		if len(added) > 0 {
+			return fmt.Sprintf("Init failed (%v) but added %v", initErr, added)
 		}
 		return ""
 	}
@@ -290,6 +339,15 @@ func TestVerifC30Init(t *testing.T) {
 				}
 			}
 		}
+		// backend faults on the three existence checks: whatever pre-exists, a transient error of
+		// Stat(config) / List(key) / List(snapshot) must never let Init go ahead over it
+		for _, fault := range []string{"stat-config", "stat-config-always", "list-key", "list-snapshot"} {
+			for subset := 0; subset < 64; subset++ {
+				for version := uint(1); version <= 2; version++ {
+					cases = append(cases, caseC30{Subset: subset, Version: version, Pol: "random", PerType: 1, Content: "text", Fault: fault})
+				}
+			}
+		}
 	}
 	for i, c := range cases {
 		if verifkit.ReplayFile() == "" && i%verifkit.Shards() != verifkit.Shard() {
@@ -300,6 +358,9 @@ func TestVerifC30Init(t *testing.T) {
 			key = c.String() // non-trivial: something is already there and the version is acceptable
 		}
 		classes := []string{fmt.Sprintf("version=%d", c.Version), "polynomial=" + c.Pol, "content=" + c.Content}
+		if c.Fault != "" {
+			classes = append(classes, "fault="+c.Fault)
+		}
 		for b, n := range typeNamesC30 {
 			if c.Subset&(1<<b) != 0 {
 				classes = append(classes, "pre="+n)
@@ -333,6 +394,7 @@ func TestVerifC30InitRandom(t *testing.T) {
 			PerType:  rapid.IntRange(1, 3).Draw(rt, "pertype"),
 			Content:  rapid.SampledFrom([]string{"text", "empty", "binary"}).Draw(rt, "content"),
 			Password: rapid.OneOf(rapid.StringN(1, 40, 200), rapid.SampledFrom([]string{"p", "pass word", "p\x00q", "пароль", strings.Repeat("long", 300)})).Draw(rt, "password"),
+			Fault:    rapid.SampledFrom([]string{"", "", "", "stat-config", "stat-config-always", "list-key", "list-snapshot"}).Draw(rt, "fault"),
 		}
 		n++
 		key := ""
